@@ -2127,6 +2127,10 @@ func (s *BgpServer) handleFSMMessage(peer *peer, e *fsmMsg) {
 		case bgp.BGP_MSG_UPDATE:
 			pathList, eor, isLimit := peer.handleUpdate(e)
 			if isLimit {
+				if len(pathList) > 0 {
+					// the withdrawals of the UPDATE that hit the prefix limit
+					s.propagateUpdate(peer, pathList)
+				}
 				_ = s.setAdminState(peer.ID(), "", adminStatePfxCt)
 				return
 			}
